@@ -242,6 +242,10 @@ for g, ops_ in CONTENT_GROUPS.items():
        functions=["content::OpBuilder::add"],
        bound="operator keywords %s with well-formed operands; every finite f32 / every i32 numeric operand" % " ".join(ops_))
 
+F32_STUB = "<f32 as Display>::fmt -> writes the bit pattern as token Fxxxxxxxx (number formatting itself is Out)"
+ob("content_ser_move_curve", ["C08"], "content_ser.rs", unwind=12, cuts=X1_ALL, stubs=[FMT_STUB, F32_STUB], timeout=1200, mem_gb=16,
+   functions=["content::serialize_ops"], bound="[MoveTo, CurveTo] for every finite point: c / v / y choice reads back")
+
 # ---------------------------------------------------------------------------------------------------------------------
 # font.rs: C19 (width table)
 # ---------------------------------------------------------------------------------------------------------------------
@@ -310,6 +314,11 @@ for l in (1, 2):
        stubs=[FMT_STUB], timeout=1200, mem_gb=16,
        functions=["parser::_parse_with_lexer_ctx"], bound="all buffers of %d bytes" % l)
 
+# Engine M (MIR -> SMT-LIB -> cvc5 int-blasting): the full ASCII85 group inverse, all 2^32 groups
+ob("enc_m_a85_group_inverse", ["C05", "C16"], "enc.rs", engine="m2s", query="a85_group_inverse", replay_harness="enc_m_a85_group_replay",
+   timeout=600, functions=["enc::base85_chunk", "enc::word_85", "enc::word_85::s", "enc::divmod", "enc::a85", "enc::sym_85"],
+   bound="ALL 2^32 four-byte groups: word_85(base85_chunk(c)) == Some(c), every digit in '!'..='u', no arithmetic overflow "
+         "(18 overflow obligations); loop-free, so no unwinding bound")
 FLFN = ["enc::flate_decode", "enc::inflate_bytes_zlib", "enc::inflate_bytes", "enc::unfilter", "enc::PredictorType::from_u8"]
 for t_ in (5, 4, 2):
     ob("enc_flate_ragged_t%d" % t_, ["C01", "C05", "C14"], "enc.rs", unwind=12, cuts=X1_ERR, stubs=[FMT_STUB], timeout=1800, mem_gb=12,
